@@ -26,7 +26,7 @@ func init() {
 		MinNontriv: 40,
 		Cases: func(tier string) int {
 			if tier == "thorough" {
-				return 50000
+				return 400000
 			}
 			return 4000
 		},
